@@ -1411,10 +1411,12 @@ std::string writeCellml1x(const IrModel &m, const std::string &version, Rng &rng
         w.close("group");
     }
     for (const auto &cn : m.conns) {
-        Attrs a;
-        addIf(a, "cmeta:id", cn.id);
-        w.open("connection", a);
-        w.open("map_components", {{"component_1", m.comps[static_cast<size_t>(cn.c1)].name}, {"component_2", m.comps[static_cast<size_t>(cn.c2)].name}}, true);
+        // CellML 2.0's connection element merges 1.x's connection and map_components; the id travels on map_components
+        // (that is where libCellML reads it from).
+        w.open("connection", {});
+        Attrs mca = {{"component_1", m.comps[static_cast<size_t>(cn.c1)].name}, {"component_2", m.comps[static_cast<size_t>(cn.c2)].name}};
+        addIf(mca, "cmeta:id", cn.id);
+        w.open("map_components", mca, true);
         for (const auto &mp : cn.maps) {
             Attrs ma = {{"variable_1", mp.v1}, {"variable_2", mp.v2}};
             addIf(ma, "cmeta:id", mp.id);
